@@ -47,7 +47,26 @@ def oracle(chk, o, m):
                 chk.violation("client-supplied date value reached the host", d, observed=v.decode("latin-1"))
 
 
-def concurrent_after_idle(chk, stack, callers):
+def concurrent_after_idle_slow_clock(chk, binp):
+    """the same with a slow wall clock (reading it takes 25 ms: an LD_PRELOAD shim): whatever one request does between reading the
+    clock and using the value, the others of the same moment run into it"""
+    import os
+    import subprocess
+    so = os.path.join(vlib.VERIF, ".cache", "clockshim.so")
+    src = os.path.join(vlib.VERIF, "tools", "native", "clockshim.c")
+    cc = subprocess.run(["clang", "-shared", "-fPIC", "-O1", "-w", "-o", so, src, "-ldl"], stdout=subprocess.PIPE, stderr=subprocess.STDOUT, text=True)
+    if cc.returncode != 0:
+        chk.notes.append("slow-clock stage skipped: the shim does not build (%s)" % cc.stdout[-200:])
+        return
+    stack = e2e.Stack(binp, log_level="Error", wrapper=["env", "LD_PRELOAD=" + so, "VERIF_CLOCK_DELAY_US=25000"])
+    try:
+        concurrent_after_idle(chk, stack, pipe.Callers(stack), rounds=5 if chk.tier == "quick" else 20, what="slow clock (25 ms per reading)")
+        chk.count("concurrent_rounds_with_a_slow_clock")
+    finally:
+        stack.close()
+
+
+def concurrent_after_idle(chk, stack, callers, rounds=None, what=None):
     """eight kept-alive connections send a request at the same moment after a pause of more than a second, several times: every one
     of those requests carries the time of that moment"""
     import threading
@@ -56,7 +75,7 @@ def concurrent_after_idle(chk, stack, callers):
     c = callers.caller(0, "curl", True)
     conns = [stack.connect(audit=(0, c["pid"], 1, e2e.IMDS[0], e2e.IMDS[1])) for _ in range(8)]
     try:
-        for rnd in range(7 if chk.tier == "quick" else 40):
+        for rnd in range(rounds or (7 if chk.tier == "quick" else 40)):
             time.sleep(1.15)
             stack.hosts.take()
             barrier = threading.Barrier(len(conns))
@@ -80,7 +99,7 @@ def concurrent_after_idle(chk, stack, callers):
                 dts = [v.decode("latin-1") for n, v in rec["headers"] if n.lower() == b"x-ms-azure-host-date"]
                 if len(dts) != 1 or not pipe.date_ok(dts[0], t0, t1):
                     chk.violation("host did not see exactly one fresh date header",
-                                  {"situation": "8 kept-alive connections, one request each at the same moment, after a pause of 1.15 s (round %d)" % rnd,
+                                  {"situation": "8 kept-alive connections, one request each at the same moment, after a pause of 1.15 s (round %d)%s" % (rnd, ", " + what if what else ""),
                                    "request": rec["start"].decode("latin-1"), "sent_at": time.strftime("%H:%M:%S", time.gmtime(t0))},
                                   expected="the time of the request", observed=dts)
     finally:
@@ -241,6 +260,7 @@ def run(chk):
     finally:
         stack.close()
     clock_steps(chk, binp)
+    concurrent_after_idle_slow_clock(chk, binp)
     if chk.counts.get("signed", 0) < 10 or chk.counts.get("relayed", 0) < 50:
         chk.broken.append({"kind": "gate", "name": "generator sanity", "why": "too few relayed/signed cases"})
     chk.coverage["rule"] = ("e2e requests carrying 0-3 client copies of each proxy-owned header in random letter case with spoofed "
